@@ -52,6 +52,9 @@ def mkuuid(node_id, salt):
     return uuid.UUID(int=(v << 96) | (v << 40) | (node_id & 0xFFFFFFFF) | (1 << 39))
 
 
+_mkuuid_plain = mkuuid
+
+
 # ------------------------------------------------------------------ schema
 
 
@@ -274,12 +277,20 @@ def specs(max_modules=3, aux=True, rich_refs=False, max_aux_depth=2):
                     others = [t for t in sc["edge_type"] if t != lab[0]]
                     new_lab = [draw(st.sampled_from(others)), lab[1], lab[2]]
             edges.append({"src": base["src"], "tgt": base["tgt"], "label": new_lab, "how": draw(st.integers(0, 2))})
-        return {
+        ir_spec = {"id": nid(), "aux": aux_list(), "aux_how": draw(st.integers(0, 1))}
+        out = {
             "salt": draw(st.integers(0, 0xFFFFFFFF)),
-            "ir": {"id": nid(), "aux": aux_list(), "aux_how": draw(st.integers(0, 1))},
+            "ir": ir_spec,
             "modules": modules,
             "edges": edges,
         }
+        # boundary UUIDs: one node may carry the nil UUID, another the all-ones UUID
+        pick = draw(st.integers(0, 5))
+        if pick < 2:
+            out["nil_id"] = draw(st.integers(1, counter[0]))
+        if pick in (1, 2):
+            out["ones_id"] = draw(st.integers(1, counter[0]))
+        return out
 
     return spec()
 
@@ -294,6 +305,15 @@ class Resolved:
         self.spec = spec
         salt = spec["salt"]
         self.salt = salt
+        special = {}
+        if spec.get("nil_id") is not None:
+            special[spec["nil_id"]] = uuid.UUID(int=0)  # the nil UUID is a legal node UUID
+        if spec.get("ones_id") is not None and spec.get("ones_id") != spec.get("nil_id"):
+            special[spec["ones_id"]] = uuid.UUID(int=(1 << 128) - 1)
+
+        def mkuuid(node_id, salt):
+            return special[node_id] if node_id in special else _mkuuid_plain(node_id, salt)
+
         ids = []
         self.nodes = []  # (kind, nodespec, uuid) for every node incl. the IR, traversal order
         self.ir_uuid = mkuuid(spec["ir"]["id"], salt)
